@@ -131,7 +131,7 @@ func Catch(f func()) (pi *PanicInfo) {
 			var sb strings.Builder
 			for {
 				fr, more := frames.Next()
-				if pi.Func == "" && strings.Contains(fr.Function, "github.com/dave/dst") {
+				if pi.Func == "" && strings.Contains(fr.Function, "github.com/dave/dst") && !strings.Contains(fr.Function, "github.com/dave/dst/verifyield") {
 					pi.Func = shortFunc(fr.Function)
 				}
 				fmt.Fprintf(&sb, "%s %s:%d\n", fr.Function, fr.File, fr.Line)
